@@ -322,7 +322,32 @@ HEUR = {}        # program term -> {subroutine: AggressiveUnroll.inline_heuristi
 
 
 # ---------- fixed programs whose event COUNT or zone operands depend on shapes and on which of two equal-looking zones is taken ----------
+KIDLE_SRC = ("@tweezer\ndef kidle(a: float, b: float):\n    g = grid.from_positions([a, a + 1.0], [b, b + 2.0])\n    action.set_loc(g)\n    action.turn_on(action.ALL, [0])\n"
+               "    action.move(grid.shift(g, 0.5, 0.0))\n    action.turn_on([], [1])\n    action.move(grid.shift(g, 0.5, 1.0))\n    action.turn_on([0, 1], [1])\n    action.turn_off([1], [])\n"
+               "    action.move(grid.shift(g, 1.5, 1.0))\n    action.turn_off(action.ALL, action.ALL)\n")
+
 SHAPE_PROGS = {
+    # a subroutine that hands back one of two closures, the acting one from inside a branch (an early return); the kernel calls what it got
+    "closure-picked-by-early-return": ("(zone: grid.Grid[Literal[3], Literal[2]], c: bool)", """
+    f = schedule.device_fn(kidle, [0, 1], [0, 1])
+    f(1.0, 2.0)
+    g = pick(c)
+    r = g(2)
+    gate.global_rz(0.25)
+    f(0.5, 0.5)
+""", """@move
+def pick(c: bool):
+    def act(k: int):
+        gate.global_r(0.5, 1.0)
+        return k
+    def idle(k: int):
+        return k + 1
+    if c:
+        #EARLY
+        return act
+    return idle
+
+"""),
     # a device kernel whose tone switches select nothing on one axis (forward, reversed, in a group)
     "idle-tone-switches": ("(zone: grid.Grid[Literal[3], Literal[2]], c: bool)", """
     f = schedule.device_fn(kidle, [0, 1], [0, 1])
@@ -402,11 +427,12 @@ def shape_programs(ctx, S, kernel_ns):
     from bloqade.shuttle.prelude import move
     zone = Grid.from_positions([0.0, 10.0, 20.0], [0.0, 5.0])
     n = 0
-    for name, (sig, body) in SHAPE_PROGS.items():
-        src = "@move\ndef main" + sig + ":" + body
+    for name, prog in SHAPE_PROGS.items():
+        sig, body = prog[0], prog[1]
+        src = (prog[2] if len(prog) > 2 else "") + "@move\ndef main" + sig + ":" + body
         for c in (True, False):
             args = (zone, c)
-            ref = move_native.run_native(src, args, S, kernel_ns=kernel_ns)
+            ref = move_native.run_native(src.replace("#EARLY", "__mark_early_return__()"), args, S, kernel_ns=kernel_ns)
             if ref[0] != "ok" or len(ref[1]) < 3:
                 ctx.obligation(f"the fixed program {name} runs natively", False, str(ref[-1])[:200])
                 continue
@@ -427,7 +453,11 @@ def shape_programs(ctx, S, kernel_ns):
                 got = text_of(evs)
                 if st != "ok" or got != want:
                     k = next((j for j in range(min(len(got), len(want))) if got[j] != want[j]), min(len(got), len(want)))
-                    ctx.fail({"kind": "events-differ", "program": name, "route": rn}, {"shape_prog": name, "route": rn, "c": c},
+                    symptom = "fewer events" if len(got) < len(want) else "more events" if len(got) > len(want) else "different event"
+                    if st == "ok" and k in ref[3]:
+                        symptom = "diverges-at-early-return-of-subroutine"
+                    ctx.fail({"kind": "events-differ", "program": name, "route": rn, "fold": bool(o["fold"]), "c": c, "aggressive_option": bool(o["aggressive"]),
+                              "post_pass": post, "symptom": symptom}, {"shape_prog": name, "route": rn, "c": c},
                              f"fixed program {name} (c={c}) on route {rn}: {len(got)} events vs {len(want)} in the source evaluation; first difference at {k}: "
                              f"{(got[k] if k < len(got) else '<none>')[:100]} vs {(want[k] if k < len(want) else '<none>')[:100]}" + (f" ({str(extra)[:100]})" if st != "ok" else ""))
                 else:
@@ -447,9 +477,7 @@ def run(ctx):
     ctx.count("routes", len(routes))
     tw_src = "".join(f"@tweezer\ndef {n}{sig}:{body}\n" for n, (sig, body, _) in move_prog.TWEEZERS.items())
     # two more device kernels for the fixed programs: tone switches that select NOTHING on one axis, and one that keeps its tones on
-    tw_src += ("@tweezer\ndef kidle(a: float, b: float):\n    g = grid.from_positions([a, a + 1.0], [b, b + 2.0])\n    action.set_loc(g)\n    action.turn_on(action.ALL, [0])\n"
-               "    action.move(grid.shift(g, 0.5, 0.0))\n    action.turn_on([], [1])\n    action.move(grid.shift(g, 0.5, 1.0))\n    action.turn_on([0, 1], [1])\n    action.turn_off([1], [])\n"
-               "    action.move(grid.shift(g, 1.5, 1.0))\n    action.turn_off(action.ALL, action.ALL)\n")
+    tw_src += KIDLE_SRC
     all_kernels = kernels.define(tw_src)
     kernel_ns = {k: v for k, v in all_kernels.items() if k in move_prog.TWEEZERS or k == "kidle"}
     move_native.register_kernels(tw_src, kernel_ns)
@@ -620,8 +648,10 @@ def replay(data):
                 if not ok: s.fails.append(n)
         c = C()
         S = tweezer_prog.harness_spec()
-        tw_src = "".join(f"@tweezer\ndef {n}{sig}:{body}\n" for n, (sig, body, _) in move_prog.TWEEZERS.items())
-        shape_programs(c, S, {k: v for k, v in kernels.define(tw_src).items() if k in move_prog.TWEEZERS})
+        tw_src = "".join(f"@tweezer\ndef {n}{sig}:{body}\n" for n, (sig, body, _) in move_prog.TWEEZERS.items()) + KIDLE_SRC
+        kns = {k: v for k, v in kernels.define(tw_src).items() if k in move_prog.TWEEZERS or k == "kidle"}
+        move_native.register_kernels(tw_src, kns)
+        shape_programs(c, S, kns)
         return bool(c.fails), (c.fails or ["the route executes the events of the source"])[0][:200]
     if "src" not in inp:
         return True, "re-run bin/check C04"
